@@ -259,10 +259,6 @@ func checkTTHRoundTrip(c TTHCase, cv *cov) (v *evid.Violation) {
 				v = evid.Failf("frame %d: size field says header is %d bytes, the encoder wrote %d", i, rf.HeaderLen, fr.hlen)
 				return
 			}
-			if rf.NTransf != 0 {
-				v = evid.Failf("frame %d: %d transforms declared", i, rf.NTransf)
-				return
-			}
 			// entries: exactly the input pairs, each once (order free); ACL token only under its own id
 			if len(rf.IntList) != len(p.IntInfo) || !eqIntMap(rf.Int, p.IntInfo) {
 				v = evid.Failf("frame %d: integer key/values on the wire (%d entries) differ from the parameters (%d entries)", i, len(rf.IntList), len(p.IntInfo))
@@ -291,7 +287,7 @@ func checkTTHRoundTrip(c TTHCase, cv *cov) (v *evid.Violation) {
 				v = evid.Failf("frame %d: an ACL section was written without an ACL token parameter", i)
 				return
 			}
-			unp := infoUnpadded(p.IntInfo, p.StrInfo)
+			unp := infoUnpadded(p.IntInfo, p.StrInfo) + rf.NTransf
 			pad := fr.hlen - 14 - unp
 			if pad < 0 || pad > 3 {
 				v = evid.Failf("frame %d: info area is %d bytes for %d bytes of content (padding %d not in 0..3)", i, fr.hlen-14, unp, pad)
